@@ -85,6 +85,7 @@ var pool = []poolEntry{
 	{"HTTP请求", func() r.Element { return value.NewObject(common.CLASS_HttpRequest, r.ElementMap{}) }},
 	{"HTTP响应", func() r.Element { return value.NewObject(common.CLASS_HttpResponse, r.ElementMap{}) }},
 	{"govalue", func() r.Element { return value.NewGoValue("tag", 1) }},
+	{"\"1*10^5\"", str("1*10^5")}, {"\"-3*^2\"", str("-3*^2")}, {"\"abcdefgh\"", str("abcdefgh")}, {"6", num(6)}, {"3", num(3)},
 }
 
 // pool entries that are singletons of the interpreter (never mutated through a setter/method
@@ -211,6 +212,13 @@ func replay(sub string, raw json.RawMessage) ([]h.Failure, error) {
 			return nil, err
 		}
 		return checkVarInputText(p.Src), nil
+	}
+	if sub == "sequence" {
+		var c seqCase
+		if err := json.Unmarshal(raw, &c); err != nil {
+			return nil, err
+		}
+		return checkSequenceOfCalls(c), nil
 	}
 	if sub == "illtyped" {
 		var p progCase
@@ -639,6 +647,276 @@ func TestRandomCalls(t *testing.T) {
 		}
 		h.R.Case(t, "calls", c.String(), c, []string{"random-arity-3-4"}, true, checkCall(c))
 	})
+}
+
+// ---------------------------------------------------------------------------------------
+// histories: several members applied one after another to ONE value (results of earlier steps
+// may be arguments of later ones): state kept inside a value (caches, in-place rewrites) must
+// never turn a later call into a Go panic
+
+type seqStep struct {
+	Kind string `json:"kind"` // method getter setter
+	Name string `json:"name"`
+	Args []int  `json:"args"` // >= 0: pool index; < 0: result of step -n-1 (空 if there is none)
+}
+
+type seqCase struct {
+	Recv  int       `json:"recv"`
+	Steps []seqStep `json:"steps"`
+}
+
+func (c seqCase) String() string {
+	var parts []string
+	for _, st := range c.Steps {
+		var as []string
+		for _, a := range st.Args {
+			if a >= 0 {
+				as = append(as, pool[a].name)
+			} else {
+				as = append(as, fmt.Sprintf("<result %d>", -a))
+			}
+		}
+		parts = append(parts, fmt.Sprintf("%s %s(%s)", st.Kind, st.Name, strings.Join(as, ", ")))
+	}
+	return "on one value " + pool[c.Recv].name + ": " + strings.Join(parts, "; ")
+}
+
+func checkSequenceOfCalls(c seqCase) []h.Failure {
+	recv := pool[c.Recv].mk()
+	var results []r.Element
+	for i, st := range c.Steps {
+		var args []r.Element
+		for _, a := range st.Args {
+			switch {
+			case a >= 0:
+				args = append(args, pool[a].mk())
+			case -a-1 < len(results) && results[-a-1] != nil:
+				args = append(args, results[-a-1])
+			default:
+				args = append(args, value.NewNull())
+			}
+		}
+		var v r.Element
+		var err error
+		kind, msg, site := h.Guard(func() {
+			h.Capture(func() {
+				switch st.Kind {
+				case "method":
+					v, err = recv.ExecMethod(st.Name, args)
+				case "getter":
+					v, err = recv.GetProperty(st.Name)
+				default:
+					if len(args) > 0 {
+						err = recv.SetProperty(st.Name, args[0])
+					}
+					v = value.NewNull()
+				}
+				if err == nil && v != nil && !isNil(v) {
+					_ = v.String()
+				}
+				_ = recv.String()
+			})
+		})
+		if f := judgeResult(fmt.Sprintf("%s [step %d]", c.String(), i+1), v, err, kind, msg, site); f != nil {
+			return f
+		}
+		if err != nil {
+			v = nil
+		}
+		results = append(results, v)
+	}
+	return nil
+}
+
+// applicable - the members of the table that a value of this pool entry knows (probed with
+// no arguments: anything but "no such method / property")
+func applicable(m members) (meths, gets map[int][]string) {
+	meths, gets = map[int][]string{}, map[int][]string{}
+	for i, pe := range pool {
+		if sharedSingleton[pe.name] {
+			continue
+		}
+		_, unknownM := pe.mk().ExecMethod("无此法", nil)
+		_, unknownG := pe.mk().GetProperty("无此项")
+		for _, name := range m.Methods {
+			var err error
+			h.Guard(func() { h.Capture(func() { _, err = pe.mk().ExecMethod(name, nil) }) })
+			if err == nil || unknownM == nil || err.Error() != strings.ReplaceAll(unknownM.Error(), "无此法", name) {
+				meths[i] = append(meths[i], name)
+			}
+		}
+		for _, name := range m.Getters {
+			var err error
+			h.Guard(func() { h.Capture(func() { _, err = pe.mk().GetProperty(name) }) })
+			if err == nil || unknownG == nil || err.Error() != strings.ReplaceAll(unknownG.Error(), "无此项", name) {
+				gets[i] = append(gets[i], name)
+			}
+		}
+	}
+	return
+}
+
+func TestCallSequences(t *testing.T) {
+	m := extractMembers()
+	meths, gets := applicable(m)
+	var recvs []int
+	for i := range pool {
+		if len(meths[i]) > 0 {
+			recvs = append(recvs, i)
+		}
+	}
+	rapid.Check(t, func(t *rapid.T) {
+		c := seqCase{Recv: rapid.SampledFrom(recvs).Draw(t, "recv")}
+		n := rapid.IntRange(2, 6).Draw(t, "steps")
+		mutating := 0
+		for i := 0; i < n; i++ {
+			st := seqStep{}
+			switch rapid.IntRange(0, 9).Draw(t, "kind") {
+			case 0, 1:
+				st.Kind = "getter"
+				if g := gets[c.Recv]; len(g) > 0 {
+					st.Name = rapid.SampledFrom(g).Draw(t, "g")
+				} else {
+					st.Name = rapid.SampledFrom(m.Getters).Draw(t, "g")
+				}
+			case 2:
+				st.Kind = "setter"
+				st.Name = rapid.SampledFrom(m.Setters).Draw(t, "s")
+				mutating++
+			default:
+				st.Kind = "method"
+				st.Name = rapid.SampledFrom(meths[c.Recv]).Draw(t, "m")
+				mutating++
+			}
+			if st.Kind != "getter" {
+				for j, na := 0, rapid.IntRange(0, 3).Draw(t, "na"); j < na; j++ {
+					if i > 0 && rapid.IntRange(0, 2).Draw(t, "prev") == 0 {
+						st.Args = append(st.Args, -rapid.IntRange(1, i).Draw(t, "res"))
+					} else {
+						st.Args = append(st.Args, rapid.IntRange(0, len(pool)-1).Draw(t, "arg"))
+					}
+				}
+			}
+			c.Steps = append(c.Steps, st)
+		}
+		h.R.Case(t, "sequence", c.String(), c, []string{"call-sequence", "recv:" + h.TypeName(pool[c.Recv].mk())}, mutating >= 2, checkSequenceOfCalls(c))
+	})
+}
+
+// TestCallTriples - bounded-exhaustive histories: for every receiver, the single calls that
+// SUCCEED on a fresh value (arguments from a small pool, arity 0..2) are collected, and every
+// ordered triple of them is applied to one value
+func TestCallTriples(t *testing.T) {
+	m := extractMembers()
+	meths, gets := applicable(m)
+	small := []int{}
+	for _, want := range []string{"0", "1", "2", "3", "6", "-1", "\"abc\"", "\"1*10^5\"", "[1]", "空", "[a=1]", "真"} {
+		for i, pe := range pool {
+			if pe.name == want {
+				small = append(small, i)
+			}
+		}
+	}
+	capN := h.Scale(40, 90)
+	shard, nsh := h.Shard(), h.NShards()
+	var total, nrecv int64
+	ri := 0
+	for recv := range pool {
+		if len(meths[recv]) == 0 {
+			continue
+		}
+		ri++
+		if ri%nsh != shard {
+			continue
+		}
+		nrecv++
+		// succeeding single calls, grouped by member name
+		byName := map[string][]seqStep{}
+		var names []string
+		try := func(st seqStep) {
+			if len(checkSequenceOfCalls(seqCase{Recv: recv, Steps: []seqStep{st}})) > 0 {
+				return // reported by the single-call enumeration
+			}
+			rv := pool[recv].mk()
+			var err error
+			h.Guard(func() {
+				h.Capture(func() {
+					var args []r.Element
+					for _, a := range st.Args {
+						args = append(args, pool[a].mk())
+					}
+					switch st.Kind {
+					case "method":
+						_, err = rv.ExecMethod(st.Name, args)
+					case "getter":
+						_, err = rv.GetProperty(st.Name)
+					default:
+						err = rv.SetProperty(st.Name, args[0])
+					}
+				})
+			})
+			if err == nil {
+				if len(byName[st.Kind+st.Name]) == 0 {
+					names = append(names, st.Kind+st.Name)
+				}
+				byName[st.Kind+st.Name] = append(byName[st.Kind+st.Name], st)
+			}
+		}
+		for _, g := range gets[recv] {
+			try(seqStep{Kind: "getter", Name: g})
+		}
+		for _, name := range meths[recv] {
+			try(seqStep{Kind: "method", Name: name})
+			for _, a := range small {
+				try(seqStep{Kind: "method", Name: name, Args: []int{a}})
+				for _, b := range small {
+					try(seqStep{Kind: "method", Name: name, Args: []int{a, b}})
+				}
+			}
+		}
+		for _, name := range m.Setters {
+			for _, a := range small {
+				try(seqStep{Kind: "setter", Name: name, Args: []int{a}})
+			}
+		}
+		// round-robin over the member names up to the cap
+		var calls []seqStep
+		for round := 0; len(calls) < capN; round++ {
+			added := false
+			for _, n := range names {
+				// alternately from both ends of the list: the extremes of the arguments a
+				// member accepts (first / last element, smallest / largest index) come first
+				l := byName[n]
+				idx := round / 2
+				if round%2 == 1 {
+					idx = len(l) - 1 - round/2
+				}
+				if round < len(l) && len(calls) < capN {
+					calls = append(calls, l[idx])
+					added = true
+				}
+			}
+			if !added {
+				break
+			}
+		}
+		for _, a := range calls {
+			for _, b := range calls {
+				for _, c := range calls {
+					sc := seqCase{Recv: recv, Steps: []seqStep{a, b, c}}
+					fails := checkSequenceOfCalls(sc)
+					total++
+					if len(fails) > 0 || total%500009 == 0 {
+						h.R.Case(t, "sequence", sc.String(), sc, []string{"call-triple", "recv:" + h.TypeName(pool[recv].mk())}, true, fails)
+					}
+				}
+			}
+		}
+	}
+	h.R.AddEvals(total)
+	h.R.AddDistinct(total)
+	h.R.Count("call-triples", total)
+	h.R.Exhaustive("call-triples", fmt.Sprintf("every ordered triple of up to %d succeeding single calls per receiver, %d receivers (shard %d/%d)", capN, nrecv, shard, nsh))
 }
 
 func TestCorpus(t *testing.T) { h.RunCorpus(t, "c10", replay) }
